@@ -53,6 +53,9 @@ with MaxIterations raised or the tolerance loosened; a period is recorded all-or
 C02_PeriodAllOrNothing), so the later periods of such a stepping history must satisfy every equation too.
 Histories realised: cap too small then raised (solved on the second attempt), expansive then solved at the
 loosened tolerance, and failures that fail again the same way.
+Scales (spec/SolverScales.tla): quantities at 1e-300 .. 1e100 (constant units or geometric decay) used in a ratio,
+with a large coefficient, as a reciprocal, in a growth rate, in a sum; what is reported must be what was solved
+(invariant C02_ReportedAsSolved), so every equation holds at the reported values at any scale.
 Readings: which equations are "derived-only" is the solver's own classification (Parser.Decoration
 after reduction); all others only need the residual bound.  Numeric predicates are computed by the
 projection in Fraction arithmetic on the reported floats; the right-hand sides are those submitted.
@@ -90,6 +93,7 @@ def run(rep):
     items += forms_items(rep)
     items += chain_items(rep)
     items += function_items(rep)
+    items += scale_items(rep)
     items += [{'case': c} for c in sk.classics()]
     n_random = 300 if rep.tier == 'quick' else 5000
     items += [{'case': c} for c in sk.random_cases(rep.seed, n_random, contractive_share=0.4)]
@@ -154,6 +158,21 @@ def function_items(rep):
     rep.extra['function_behaviours_replayed'] = len(behs)
     rep.extra['function_cases'] = len(items)
     return items
+
+
+def scale_items(rep):
+    """spec/SolverScales.tla: quantities at very small / very large scales, used where they are not negligible"""
+    if rep.tier == 'thorough':
+        sk.expect_counterexample(rep, core, 'MC_SolverScales_seeded.cfg', 'C02_ReportedAsSolved', module='MC_SolverScales')
+    res = core.tlc('MC_SolverScales', 'MC_SolverScales_quick.cfg', workers=1, tag='c02s')
+    if res.violated:
+        raise core.MachineryError('spec invariant %s violated in MC_SolverScales_quick.cfg' % res.violated)
+    rep.add_tlc(res, 'exhaustive MC_SolverScales_quick.cfg')
+    decls = list({core.canonical(b): b for b in core.json_of_printed(res, 'BEH')}.values())
+    if not decls:
+        raise core.MachineryError('TLC emitted no behaviours for MC_SolverScales_quick.cfg')
+    rep.extra['scale_declarations_replayed'] = len(decls)
+    return [{'case': sk.scale_case(d), 'behaviour': d, 'whole': False} for d in decls]
 
 
 def harvest_part(rep):
